@@ -144,11 +144,18 @@ def run_behaviour(beh, variant: str, durs, via_defaults: bool, rng: random.Rando
             elif a == "SwConnect":
                 ops.append(["connect"])
                 with REC.stim("SwConnect") as s:
-                    if rng.random() < 0.7 or not sw._connections:
+                    overwhelmed = sw.health_state_actual.name == "OVERWHELMED"
+                    if sw._connections and (rng.random() < 0.3 or (overwhelmed and rng.random() < 0.6)):
+                        sw.terminate_connection(next(iter(sw._connections)), send_disconnect=False)
+                        if not overwhelmed:
+                            continue_connect = False
+                        else:
+                            continue_connect = True     # room again: the next connection lets the software recover
+                    else:
+                        continue_connect = True
+                    if continue_connect:
                         nconn[0] += 1
                         s.ok = bool(sw.add_connection(f"verif-{nconn[0]}"))
-                    else:
-                        sw.terminate_connection(next(iter(sw._connections)), send_disconnect=False)
             elif a in ("FileScan", "FileCorrupt", "FileRepair", "FileRestore"):
                 file_req(int(arg) if arg in ("1", "2") else rng.choice([1, 2]), a[4:].lower())
             elif a == "SqlDelete":
@@ -297,7 +304,9 @@ def sig_fn(tr, event, stuck):
 def situations(traces, res) -> Dict[str, Any]:
     """What the accepted parts of the implementation traces went through (evidence only)."""
     sit = {"compromise_during_fix": 0, "overwhelmed": 0, "recovered_from_overwhelmed": 0, "scan_request_while_scanning": 0,
-           "power_off_with_operation_pending": 0, "fix_done_repairs_file": 0, "node_scan_and_fix_done_in_one_tick": 0}
+           "power_off_with_operation_pending": 0, "fix_done_repairs_file": 0, "node_scan_and_fix_done_in_one_tick": 0,
+           "drift_node_scan_leaves_folder_visible_unlike_worst_file": 0}
+    rank = {"NONE": 0, "GOOD": 1, "COMPROMISED": 2, "CORRUPT": 3, "RESTORING": 4, "REPAIRING": 5}
     when: Dict[str, Dict[str, int]] = {}
     for tr, (reached, length) in zip(traces, res["results"]):
         c = tr["cfg"]
@@ -319,6 +328,10 @@ def situations(traces, res) -> Dict[str, Any]:
                 sit["power_off_with_operation_pending"] += 1
             if ev == "FixDone" and e["fh"] != prev["fh"]:
                 sit["fix_done_repairs_file"] += 1
+            if ev == "OsScanDone" and any(e["lv"]):
+                worst = max((h for h, l in zip(e["fh"], e["lv"]) if l), key=lambda h: rank[h])
+                if e["fov"] != worst:
+                    sit["drift_node_scan_leaves_folder_visible_unlike_worst_file"] += 1
             if ev == "TickBegin":
                 tick_phases = []
             if ev in ("OsScanDone", "FixDone", "FoScanDone", "RestoreDone"):
